@@ -2,7 +2,7 @@
 import itertools, math, random, threading
 from .. import tlc, gen, common, sched
 
-OPS1 = '{"SetConst","SetInit","SetFlow","SetConv","SetW","Eval","EvalElem","Plot","ResetCache","RunTwice"}'
+OPS1 = '{"SetConst","SetInit","SetFlow","SetConv","SetStockEq","SetW","Eval","EvalElem","Plot","ResetCache","RunTwice"}'
 
 
 def consts(dev='{}', threads='("t1" :> "x" @@ "t2" :> "z")'):
@@ -24,7 +24,7 @@ def apply_defs(m, defs, all_=False, only=None):
     if all_ or only == "f": f.equation = c if defs["fv"] == 1 else 2.0 * c
     if all_ or only == "s":
         s.initial_value = float(defs["iv"])
-    if all_: s.equation = f
+    if all_ or only == "seq": s.equation = f if defs.get("sv", 1) == 1 else f + f
     w = m.constants["w"]
     if (all_ or only == "w") and defs.get("w", 0) > 0: w.equation = float(defs["w"])      # w has no equation until it is first set
     if all_ or only == "y": y.equation = s * 2.0 + w if defs["yv"] == 1 else s + 10.0 + w
@@ -51,7 +51,7 @@ def noisy_runs(b, m, defs):
         return ("the value reported for the stochastic constant c is not the value f consumed", [fv / k for fv in r2["f"]], r2["c"])
     acc = float(defs["iv"])
     for i in range(1, len(r2["s"])):
-        acc += r2["f"][i - 1]
+        acc += r2["f"][i - 1] * defs.get("sv", 1)
         if abs(r2["s"][i] - acc) > 1e-9:
             return ("the stock did not consume the reported values of f", acc, r2["s"][i])
     if runs[2]["c"] != r2["c"] or runs[3]["c"] != r2["c"] or runs[3]["s"] != r2["s"]:
@@ -62,14 +62,14 @@ def noisy_runs(b, m, defs):
 def reference(defs, e, t):
     """closed form of the reference model"""
     c = float(defs["c"]); fl = c if defs["fv"] == 1 else 2.0 * c
-    s = float(defs["iv"]) + fl * t
+    s = float(defs["iv"]) + fl * defs.get("sv", 1) * t
     w = float(defs.get("w", 0))
     return {"c": c, "f": fl, "s": s, "w": w, "y": s * 2.0 + w if defs["yv"] == 1 else s + 10.0 + w}[e]
 
 
 def replay1(hist):
     BPTK_Py = common.use_repo()
-    m = build({"c": 1, "iv": 0, "fv": 1, "yv": 1, "w": 0})
+    m = build({"c": 1, "iv": 0, "fv": 1, "yv": 1, "w": 0, "sv": 1})
     for n, h in enumerate(hist):
         op = h["op"]
         try:
@@ -77,6 +77,7 @@ def replay1(hist):
             elif op == "SetInit": apply_defs(m, h["defs"], only="s")
             elif op == "SetFlow": apply_defs(m, h["defs"], only="f")
             elif op == "SetConv": apply_defs(m, h["defs"], only="y")
+            elif op == "SetStockEq": apply_defs(m, h["defs"], only="seq")
             elif op == "SetW": apply_defs(m, h["defs"], only="w")
             elif op == "ResetCache": m.reset_cache()
             elif op == "Plot":
@@ -195,10 +196,10 @@ def run(tier, replay_file=None):
         raise common.Machinery("deviation D08a does not violate NoStale in the spec")
     hs, _ = gen.histories("Memo", consts(), 12 if quick else 18, simulate=60 if quick else 800, seed=common.seed() + 31, cache=False,
                           extra_cfg={"init": "Init1", "next": "Next1"})
-    b1 = dict(consts()); b1["Ops"] = '{"SetConst","SetInit","SetFlow","SetConv","SetW","Eval"}'; b1["Times"] = '{2}'; b1["CVals"] = '{1,3}'; b1["IVals"] = '{0,5}'
+    b1 = dict(consts()); b1["Ops"] = '{"SetConst","SetInit","SetFlow","SetConv","SetStockEq","SetW","Eval"}'; b1["Times"] = '{2}'; b1["CVals"] = '{1,3}'; b1["IVals"] = '{0,5}'
     bfs, _ = gen.histories("Memo", b1, 3 if quick else 4, extra_cfg={"init": "Init1", "next": "Next1"})
     # the memo filled through one route only (plot / element call / api), then an edit of an input, then a read: every combination
-    b2 = dict(b1); b2["Ops"] = '{"SetConst","SetInit","SetFlow","Eval","EvalElem","Plot"}'
+    b2 = dict(b1); b2["Ops"] = '{"SetConst","SetInit","SetFlow","SetStockEq","Eval","EvalElem","Plot"}'
     routes, _ = gen.histories("Memo", b2, 3, extra_cfg={"init": "Init1", "next": "Next1", "action_constraints": ["MC_Fill"]},
                               defs='MC_Fill == LET n == Len(hist) IN /\\ (n \\in {0, 2} => hist\'[n + 1].op \\in {"Eval", "Plot"}) /\\ (n = 1 => hist\'[2].op \\notin {"Eval", "Plot"})\n')
     bfs = bfs + routes
